@@ -87,6 +87,10 @@ package client
 //@   callsite ntp.ClockOffset 0 requires same(t2, sTxTime) && (interleavedResp ==> interleavedReq && ntpresp.OriginTime == c.prev.cRxTime)
 //@   callsite ntp.ClockOffset 0 requires !interleavedResp ==> same(t0, cTxTime1) && same(t1, sRxTime) && same(t3, cRxTime) && ntpresp.OriginTime == ntpreq.TransmitTime
 //@   callsite ntp.ClockOffset 0 requires interleavedResp ==> same(t0, ntp.TimeFromTime64(c.prev.cTxTime, cTxTime0)) && same(t1, ntp.TimeFromTime64(c.prev.sRxTime, cTxTime0)) && same(t3, ntp.TimeFromTime64(c.prev.cRxTime, cTxTime0))
+// C08: the "unexpected system clock behavior" panic of ntp.ValidateResponseTimestamps is about the local clocks only
+// (assumption stated where the local receive timestamp has just been taken; obligation at the call).
+//@   callsite mtrcs.pktsReceived.Inc 0 scope cRxTime.Sub(cTxTime1) >= 0
+//@   callsite ntp.ValidateResponseTimestamps 0 requires !interleavedResp ==> t3.Sub(t0) >= 0
 //@   ensures reported: err == nil && c.Filter == nil ==> calls("ntp.ClockOffset") == 1
 //@   ensures accepted: err == nil ==> acceptable(lastpkt())
 //@   ensures sentlen: err == nil ==> len(lastsent()) == 48
@@ -127,6 +131,11 @@ package client
 //@   callsite ntp.ClockOffset 0 requires same(t2, sTxTime) && (interleavedResp ==> interleavedReq && ntpresp.OriginTime == c.prev.cRxTime)
 //@   callsite ntp.ClockOffset 0 requires !interleavedResp ==> same(t0, cTxTime1) && same(t1, sRxTime) && same(t3, cRxTime) && ntpresp.OriginTime == ntpreq.TransmitTime
 //@   callsite ntp.ClockOffset 0 requires interleavedResp ==> same(t0, ntp.TimeFromTime64(c.prev.cTxTime, cTxTime0)) && same(t1, ntp.TimeFromTime64(c.prev.sRxTime, cTxTime0)) && same(t3, ntp.TimeFromTime64(c.prev.cRxTime, cTxTime0))
+// C08: ntp.ValidateResponseTimestamps panics ("unexpected system clock behavior") when t3 is earlier than t0. In basic
+// mode that must be a statement about the local clocks only, never about what a datagram says: the assumption on the
+// local readings is stated where the local receive timestamp has just been taken, the obligation at the call.
+//@   callsite mtrcs.pktsReceived.Inc 0 scope cRxTime.Sub(cTxTime1) >= 0
+//@   callsite ntp.ValidateResponseTimestamps 0 requires !interleavedResp ==> t3.Sub(t0) >= 0
 //@   ensures reported: err == nil && c.Filter == nil ==> calls("ntp.ClockOffset") == 1
 //@   ensures accepted: err == nil ==> acceptable(lastreadof(udpLayer).Payload)
 //@   noerror scionLayer.SetSrcAddr, scionLayer.SetDstAddr, path.Dataplane().SetPath, payload.SerializeTo, udpLayer.SerializeTo, spao.ComputeAuthCMAC, e2eExtn.SerializeTo, scionLayer.SerializeTo
